@@ -63,6 +63,9 @@ def _rename_locals(root, relfile):
 VERIF = os.path.dirname(os.path.dirname(os.path.dirname(os.path.abspath(__file__))))
 
 
+SRC_ROOT = None        # development aid (tools/dev_selftest.py): take the tree to edit from another root
+
+
 def corpus_specs(prop):
     """The kept study material as self-test cases: every seeded change (seeded/<name>/, confirmed to break a property while
     the test suite passes) that this property's rules reported when it was taken must still be reported by them, and every
@@ -137,7 +140,7 @@ def _one(args):
     mod = importlib.import_module(modname)
     tmp = tempfile.mkdtemp(prefix="plint-st-")
     try:
-        shutil.copytree(os.path.join(units.REPO, "src"), os.path.join(tmp, "src"))
+        shutil.copytree(os.path.join(SRC_ROOT or units.REPO, "src"), os.path.join(tmp, "src"))
         err = _apply(tmp, spec)
         if err:
             return (spec["id"], "skipped", err)
